@@ -134,11 +134,15 @@ inductive UnwindResult where
   | unwindStopped
   deriving DecidableEq, Repr
 
-/-- `Fiber::stack_unwind`. -/
+/-- `Fiber::stack_unwind`.  `bottomFrame` is the frame count recorded when a native called back
+(`ExecutionMode::CallingNativeCode(depth)`), `none` in the loop started by `Vm::run`.  Only a
+handler of a frame pushed *above* that count belongs to the nested loop
+(`call_frame_depth() > bottom_frame`, generated `Gen.handlerBelongsToLoop`); a handler at or below it belongs to the caller of the native
+and is reached by the calling loop once the native has returned the error. -/
 def stackUnwind (f : Fiber) (bottomFrame : Option Nat) : UnwindResult :=
   match f.handlers with
   | h :: _ =>
-    if h.depth ≥ bottomFrame.getD 0 then
+    if handlerBelongsToLoop h.depth (bottomFrame.getD 0) then
       let f := pauseUnwind f h.depth
       .potentiallyHandled { f with frames := setIp f.frames (h.depth - 1) h.offset, cur := h.depth - 1 }
     else .unwindStopped
@@ -170,8 +174,9 @@ inductive Outcome where
   | caught (bt : List (Nat × Nat)) (f : Fiber)
   /-- `UnwindResult::Unhandled`: `print_error` runs on this fiber -/
   | uncaught (f : Fiber)
-  /-- `UnwindResult::UnwindStopped`: the error is handed to the native function that called back -/
-  | stopped (f : Fiber)
+  /-- `UnwindResult::UnwindStopped`: the error is handed to the native function that called back
+  (`rest`: the decisions of the catch clauses not met yet) -/
+  | stopped (f : Fiber) (rest : List (Bool × Nat))
   | stuck
   deriving DecidableEq, Repr
 
@@ -185,12 +190,12 @@ def unwindFrom (bottom : Option Nat) (g : Fiber) : List (Bool × Nat) → Outcom
   | [] =>
     match stackUnwind g bottom with
     | .unhandled => .uncaught g
-    | .unwindStopped => .stopped g
+    | .unwindStopped => .stopped g []
     | .potentiallyHandled _ => .stuck
-  | (true, _) :: _ =>
+  | (true, ip') :: ds' =>
     match stackUnwind g bottom with
     | .unhandled => .uncaught g
-    | .unwindStopped => .stopped g
+    | .unwindStopped => .stopped g ((true, ip') :: ds')
     | .potentiallyHandled f' =>
       match finishUnwind f' with
       | some (bt, f'') => .caught bt f''
@@ -198,12 +203,27 @@ def unwindFrom (bottom : Option Nat) (g : Fiber) : List (Bool × Nat) → Outcom
   | (false, ip') :: ds' =>
     match stackUnwind g bottom with
     | .unhandled => .uncaught g
-    | .unwindStopped => .stopped g
+    | .unwindStopped => .stopped g ((false, ip') :: ds')
     | .potentiallyHandled f' => unwindFrom bottom (storeIp (continueUnwind f') ip') ds'
 
 /-- An error is raised while the instruction pointer of the running frame is `ip`. -/
 def unwindRun (bottom : Option Nat) (f : Fiber) (ip : Nat) (ds : List (Bool × Nat)) : Outcome :=
   unwindFrom bottom (storeIp f ip) ds
+
+/-- The error travels through nested interpreter loops.  `bottoms` are the frame counts recorded by
+the natives that called back, innermost loop first; the loop started by `Vm::run` has none.  When
+the search of a loop stops (`UnwindStopped`), `Vm::execute` returns `RuntimeError`,
+`to_call_result` hands the error to the native, the native returns it, and `call_native` /
+`op_iter_next` of the calling loop set it again (`nativeErrorSignal`): `Vm::stack_unwind` runs
+there with that loop's bottom.  Its `store_ip` writes the unchanged `self.ip` into the unchanged
+current frame (no frame was popped, `self.ip` was last written by the inner loop's own
+`stack_unwind`), so the fiber is as the inner loop left it. -/
+def unwindLoops : List Nat → Fiber → List (Bool × Nat) → Outcome
+  | [], g, ds => unwindFrom none g ds
+  | b :: bs, g, ds =>
+    match unwindFrom (some b) g ds with
+    | .stopped g' rest => unwindLoops bs g' rest
+    | o => o
 
 /-- Handler depths are at least 1, at most `top`, and do not increase towards older handlers. -/
 def sortedFrom (top : Nat) : List Handler → Bool
@@ -253,8 +273,10 @@ def printError (funs : Nat → FunInfo) (frames : List Frame) (cls msg : String)
 inductive ProgramEnd where
   /-- the main fiber's last frame returned -/
   | finished
-  /-- `exit()` / `exit(n)` (an integral number) was called -/
-  | exitCall (arg : Option Int)
+  /-- `exit()` / `exit(n)` (an integral number) was called while `nested` natives that called back
+  (`iter.each`, `List.sort`, `print` → `str()`, a lazy iterator driven by `for` / `.list()`, …) are
+  between the loop of `Vm::run` and the frame that calls `exit` -/
+  | exitCall (arg : Option Int) (nested : Nat)
   /-- an error reached the bottom of a fiber's stack -/
   | uncaughtError
   | compileError
@@ -268,17 +290,30 @@ inductive ProgramEnd where
 def castUnsigned (bits : Nat) (n : Int) : Nat :=
   if n < 0 then 0 else if n > (2 ^ bits - 1 : Nat) then 2 ^ bits - 1 else n.toNat
 
-/-- What `Vm::execute` returns to `Vm::run`. -/
-def execResult : ProgramEnd → ExecResult
-  | .finished => .Exit exitCodeInit
-  | .exitCall none => .Exit exitDefault
-  | .exitCall (some n) => .Exit (castUnsigned exitCastBits n)
-  | .uncaughtError => unhandledResult
-  | .compileError => .CompileError
-  | .importCompileError => importCompileErrorResult
-  | .deadlock => .RuntimeError
+/-- A nested interpreter loop ended with `r`; what the loop that called the native returns:
+`to_call_result` turns an exit into `Call::Err(LyError::Exit(code))`, the native returns it, and
+the match on the native's result answers `set_exit(code)` — the `Exit` signal with `exit_code =
+code`.  `none`: host panic (`internal_error`) or not a program end. -/
+def throughNative (r : ExecResult) : Option ExecResult :=
+  match toCallResult r with
+  | .ErrExit code => signalResult code nativeExitSignal
+  | _ => none
+
+def throughNatives : Nat → ExecResult → Option ExecResult
+  | 0, r => some r
+  | k + 1, r => (throughNative r).bind (throughNatives k)
+
+/-- What `Vm::execute` returns to `Vm::run` (`none`: host panic on the way). -/
+def execResult : ProgramEnd → Option ExecResult
+  | .finished => signalResult exitCodeInit .Exit
+  | .exitCall none k => throughNatives k (.Exit exitDefault)
+  | .exitCall (some n) k => throughNatives k (.Exit (castUnsigned exitCastBits n))
+  | .uncaughtError => some unhandledResult
+  | .compileError => some .CompileError
+  | .importCompileError => signalResult exitCodeInit importCompileErrorSignal
+  | .deadlock => some .RuntimeError
 
 /-- `Vm::run(..)`: (status, `VmExit`); `main.rs` hands the status to `process::exit`. -/
-def status (e : ProgramEnd) : Option (Int × VmExit) := runStatus (execResult e)
+def status (e : ProgramEnd) : Option (Int × VmExit) := (execResult e).bind runStatus
 
 end LaytheVerif.Lines
